@@ -124,9 +124,11 @@ func VerifC02Splitters() {
 	var tok []byte
 	switch verifIntRange(0, 2) {
 	case 0:
-		adv, tok, _ = byteSplitter{sep: verifByte()}.scan(data, atEOF)
+		bs := byteSplitter{sep: verifByte()}
+		adv, tok, _ = bs.scan(data, atEOF)
 	case 1:
-		adv, tok, _ = blankLineSplitter{terminator: &rt}.scan(data, atEOF)
+		bl := blankLineSplitter{terminator: &rt}
+		adv, tok, _ = bl.scan(data, atEOF)
 	default:
 		var fields []string
 		s := &csvSplitter{separator: ',', sepLen: 1, fields: &fields}
